@@ -204,11 +204,59 @@ class Unicode(Part):
             ctx.nontrivial = True
 
 
+HIGHLIGHT_FRAGMENTS = [
+    "c0ffee00-a1b2-4c3d-8e9f-0123456789ab", "123e4567-e89b-12d3-a456-426614174000", "192.168.0.1", "::1", "2001:db8::ff00:42:8329", "00:1B:44:11:3A:B7", "0123.4567.89ab.cdef",
+    "https://example.org/a?b=1&c=2", "/usr/local/lib/python3/site.py", "C:\\dir\\file.txt", "file.py:12", "foo(bar=1)", "<Tag attr=\"v\" other='w'>", "...", "True", "False", "None",
+    "3.14e-10", "0x1F", "1_000", "-5", "'single'", "\"double\"", "b'bytes'", "key=value", "[1, 2, 3]", "{'a': 1}", "(x, y)", "word", "another", "漢字", "x", ":smile:", "[bold]", "[/]",
+]
+
+
+class PrintOptions(Part):
+    name = "print-options"
+    rule = ("print(s, markup=False, ...) and log(s, markup=False) for strings assembled from fragments that the default highlighter recognises (uuid, ipv4/ipv6, MAC, url, path, "
+            "call, tag and attributes, numbers, constants, quoted strings, brackets) and ordinary words x justify (incl. full) x overflow x no_wrap x soft_wrap x crop x "
+            "highlight x emoji x style x end x console width 4..80 x colour system: never raises; non-trivial = the text wraps onto >= 2 lines with justify='full' or "
+            "highlighting on")
+    budget = {"quick": (8, 400), "thorough": (16, 6000)}
+
+    def strategy(self, tier):
+        frag = st.sampled_from(HIGHLIGHT_FRAGMENTS)
+        sep = st.sampled_from([" ", " ", " ", "  ", "\n", ", ", "=", ""])
+        text = st.lists(st.tuples(frag, sep), min_size=1, max_size=12).map(lambda ps: "".join(a + b for a, b in ps))
+        opts = st.fixed_dictionaries({}, optional={
+            "justify": st.sampled_from(["default", "left", "center", "right", "full", "full"]), "overflow": st.sampled_from(["fold", "crop", "ellipsis", "ignore"]), "no_wrap": st.booleans(),
+            "soft_wrap": st.booleans(), "crop": st.booleans(), "highlight": st.booleans(), "emoji": st.booleans(), "style": st.sampled_from(["bold", "on red", "none", "repr.number"]),
+            "end": st.sampled_from(["", "\n", " "]), "width": st.integers(4, 60)})
+        return st.builds(lambda t, o, w, cs, route: {"s": t, "opts": o, "W": w, "system": cs, "route": route}, text, opts, st.one_of(st.integers(4, 30), st.integers(4, 80)),
+                         st.sampled_from([None, "standard", "truecolor"]), st.sampled_from(["print", "print", "log"]))
+
+    def check(self, spec, ctx):
+        from rich.console import Console
+
+        con = sut(Console, file=io.StringIO(), width=spec["W"], color_system=spec["system"], force_terminal=True, legacy_windows=False, log_path=False, _environ={})
+        opts = dict(spec["opts"])
+        try:
+            if spec["route"] == "print":
+                con.print(spec["s"], markup=False, **opts)
+            else:
+                con.log(spec["s"], markup=False, **{k: v for k, v in opts.items() if k in ("justify", "emoji", "highlight", "style", "end")})
+        except MemoryError:
+            raise
+        except Exception as e:  # noqa
+            ctx.violation("undocumented-exception", "C14/print/%s" % bucket_of(e), "%s(%r, markup=False, **%r) at width %d raised %r" % (spec["route"], spec["s"], opts, spec["W"], e))
+            return
+        wraps = len(spec["s"]) > spec["W"]
+        if wraps and (opts.get("justify") == "full" or opts.get("highlight", True)):
+            ctx.nontrivial = True
+        if opts.get("justify") == "full":
+            ctx.cls("justify-full")
+
+
 class NonTermination(Exception):
     pass
 
 
-def counting_console(W, limit=200000):
+def counting_console(W, limit=200000, color_system="truecolor", no_color=False):
     from rich.console import Console
 
     class Counting(Console):
@@ -220,7 +268,7 @@ def counting_console(W, limit=200000):
                 raise NonTermination("more than %d render() invocations" % limit)
             return super().render(renderable, options)
 
-    return Counting(file=io.StringIO(), width=W, height=25, color_system="truecolor", force_terminal=True, legacy_windows=False, _environ={})
+    return Counting(file=io.StringIO(), width=W, height=25, color_system=color_system, no_color=no_color, force_terminal=True, legacy_windows=False, _environ={})
 
 
 def syntax_leaf():
@@ -350,7 +398,7 @@ class Trees(Part):
         extra = st.one_of(syntax_leaf(), markdown_leaf(), markdown_leaf(), pretty_leaf(), other_leaves())
         wrap = st.one_of(GT.node(0, "any", extra=extra), GT.node(0, "any", extra=extra), GT.node(0, "any"), extra,
                          st.builds(lambda s, p: {"k": "panel", "child": s, "box": "ROUNDED", "title": None, "title_align": "center", "expand": True, "padding": [0, 1], "width": None} if p else s, syntax_leaf(), st.booleans()))
-        return st.builds(lambda t, w: {"tree": t, "W": w}, wrap, w)
+        return st.builds(lambda t, w, cs, nc: {"tree": t, "W": w, "system": cs, "no_color": nc}, wrap, w, st.sampled_from(["truecolor", "truecolor", "standard", "256", "windows", None]), st.sampled_from([False, False, False, True]))
 
     def check(self, spec, ctx):
         from rich.measure import Measurement
@@ -363,7 +411,7 @@ class Trees(Part):
         has_syntax = "syntax" in kinds
         smin = GT.struct_min(tree)
         for what in ("render", "measure", "print"):
-            con = counting_console(W)
+            con = counting_console(W, color_system=spec.get("system", "truecolor"), no_color=spec.get("no_color", False))
             try:
                 r = build(tree)
                 if what == "render":
@@ -472,4 +520,4 @@ class Fuzz(Part):
             shutil.rmtree(crashes, ignore_errors=True)
 
 
-PARTS = [Tokens(), Unicode(), Trees(), Fuzz()]
+PARTS = [Tokens(), Unicode(), Trees(), Fuzz(), PrintOptions()]
